@@ -12,22 +12,29 @@ theorem timeUs_split (us : Int) (h0 : 0 ≤ us) (h1 : us < US) :
     timeUs (us / 3600000000) (us / 60000000 % 60) (us / 1000000 % 60) (us % 1000000) = us := by
   unfold timeUs; simp only [US] at h1; omega
 
-theorem mk_ok (year m d h mi s us : Int) (tz : Option Int) (hy : year ≠ 0) (hyb : year.natAbs ≤ 2 ^ 31)
+theorem mkCore_ok (year m d h mi s us : Int) (tz : Option Int) (hy : year ≠ 0) (hyb : year.natAbs ≤ 2 ^ 31)
     (hm : 1 ≤ m ∧ m ≤ 12) (hd : 1 ≤ d ∧ d ≤ monthDays (proxyLeap year) m)
     (hh : 0 ≤ h ∧ h ≤ 23) (hmi : 0 ≤ mi ∧ mi ≤ 59) (hs : 0 ≤ s ∧ s ≤ 59) (hus : 0 ≤ us ∧ us ≤ 999999) :
-    mk year m d h mi s us tz = .ok ⟨year, m, d, timeUs h mi s us, tz⟩ := by
-  have h24 : (h == 24) = false := by simp; omega
+    mkCore year m d h mi s us false tz = .ok ⟨year, m, d, timeUs h mi s us, tz⟩ := by
   have hfields : ∀ lp, lp = proxyLeap year → pyFieldsOk lp m d h mi s us = true := by
     intro lp hlp; subst hlp; unfold pyFieldsOk; simp; omega
-  unfold mk
-  simp only [h24, Bool.false_and, Bool.false_eq_true, ↓reduceIte, Bool.not_false, Bool.and_false]
+  unfold mkCore
   split
   · rename_i hr
     have : isleap year = proxyLeap year := by unfold proxyLeap; rw [if_neg (by omega)]
     rw [hfields _ this]; rfl
   · rename_i hr
     have : ¬ (year.natAbs > 2 ^ 31) := by omega
-    rw [if_neg this, hfields _ rfl]; rfl
+    rw [if_neg this]; simp only []; rw [hfields _ rfl]; rfl
+
+theorem mk_ok (year m d h mi s us : Int) (tz : Option Int) (hy : year ≠ 0) (hyb : year.natAbs ≤ 2 ^ 31)
+    (hm : 1 ≤ m ∧ m ≤ 12) (hd : 1 ≤ d ∧ d ≤ monthDays (proxyLeap year) m)
+    (hh : 0 ≤ h ∧ h ≤ 23) (hmi : 0 ≤ mi ∧ mi ≤ 59) (hs : 0 ≤ s ∧ s ≤ 59) (hus : 0 ≤ us ∧ us ≤ 999999) :
+    mk year m d h mi s us tz = .ok ⟨year, m, d, timeUs h mi s us, tz⟩ := by
+  have h24 : (h == 24) = false := by simp; omega
+  unfold mk
+  simp only [h24, Bool.false_and, Bool.false_eq_true, ↓reduceIte]
+  exact mkCore_ok year m d h mi s us tz hy hyb hm hd hh hmi hs hus
 
 theorem mkUs_ok (year m d us : Int) (tz : Option Int) (hy : year ≠ 0) (hyb : year.natAbs ≤ 2 ^ 31)
     (hm : 1 ≤ m ∧ m ≤ 12) (hd : 1 ≤ d ∧ d ≤ monthDays (proxyLeap year) m) (hu : 0 ≤ us ∧ us < US) :
